@@ -378,7 +378,9 @@ class Project:
         The name of the path (minus its extension) should be a valid SPDX
         License Identifier.
         """
-        if not path.suffix:
+        # Some identifiers contain a dot themselves (e.g. Python-2.0.1). If
+        # the whole file name is an identifier, there is no file extension.
+        if not path.suffix or path.name in self.license_map:
             raise SpdxIdentifierNotFoundError(f"{path} has no file extension")
         if path.stem in self.license_map:
             return path.stem
